@@ -134,6 +134,131 @@ let run_bitmap args ops =
     (String.split_on_char ';' ops);
   print_endline (Buffer.contents b)
 
+(* ---------------------------------------------------------------- hash tables *)
+let int_of_n = function N0 -> 0 | Npos p -> int_of_pos p
+let show_ints tag l = " " ^ tag ^ (if l = [] then "-" else String.concat "," (List.map string_of_int l))
+
+let parse_hop nkeys s =
+  let el k v =
+    let k = int_of_string k and v = int_of_string v in
+    if k < 0 || k >= nkeys || v < 0 || v > 999 then None else Some (n_of_int (k * 1000 + v)) in
+  let mk act k v = match el k v with Some x -> `Op (HDo (act, x)) | None -> `Reject in
+  match words s with
+  | ["find"; k] -> mk Find k "0"
+  | ["ins"; k; v] -> mk Insert k v
+  | ["rep"; k; v] -> mk Replace k v
+  | ["del"; k] -> mk Delete k "0"
+  | ["clear"] -> `Op HClear
+  | ["num"] -> `Op HElsNum
+  | ["each"] -> `Op HForeach
+  | ["coll"] -> `Op HCollisions
+  | [] -> `Skip
+  | _ -> failwith ("bad htab op: " ^ s)
+
+let live h =
+  let rec take n l = if n = 0 then [] else match l with [] -> [] | x :: r -> x :: take (n - 1) r in
+  List.concat_map (function Some (hh, y) -> if hh = N0 then [] else [int_of_n y] | None -> [-1])
+    (take (int_of_nat h.els_bound) h.els)
+
+let dump_htab b h =
+  let l = live h in
+  Buffer.add_string b (show_ints "s" (List.sort compare l));
+  Buffer.add_string b (" n" ^ string_of_int (int_of_nat h.h_els_num));
+  Buffer.add_string b (show_ints "#o" l);
+  Buffer.add_string b (Printf.sprintf " #c%d #b%d #z%d #E" (int_of_n h.collisions) (int_of_nat h.els_bound) (List.length h.entries));
+  Buffer.add_string b (String.concat "," (List.map (function Empty -> "." | Deleted -> "x" | Ix n -> string_of_int (int_of_nat n)) h.entries))
+
+let run_htab args ops =
+  let nums = List.map int_of_string (words args) in
+  let min_size, table = match nums with m :: t -> m, t | [] -> 0, [] in
+  let tbl = List.map n_of_int table in
+  let nkeys = List.length table in
+  let h = ref (inst_create (nat_of_int min_size)) in
+  let b = Buffer.create 256 in
+  let stop = ref false in
+  List.iter (fun o ->
+    if not !stop then
+    match parse_hop nkeys o with
+    | `Skip -> ()
+    | `Reject -> Buffer.add_string b " REJECT"; stop := true
+    | `Op o ->
+      let nlog = List.length !h.flog in
+      (match inst_step tbl !h o with
+       | None -> Buffer.add_string b " ERROR"; stop := true
+       | Some (h', out) ->
+         h := h';
+         (match out with
+          | HoDo (f, r) ->
+            Buffer.add_string b (if f then " f1" else " f0");
+            Buffer.add_string b (match r with None -> " e-" | Some x -> " e" ^ string_of_int (int_of_n x))
+          | HoNone -> Buffer.add_string b " -"
+          | HoNat n -> Buffer.add_string b (" n" ^ string_of_int (int_of_nat n))
+          | HoList l -> Buffer.add_string b (show_ints "l" (List.map int_of_n l))
+          | HoN n -> Buffer.add_string b (" #c" ^ string_of_int (int_of_n n)));
+         let rec drop n l = if n = 0 then l else match l with [] -> [] | _ :: r -> drop (n - 1) r in
+         let fr = List.map int_of_n (drop nlog h'.flog) in
+         Buffer.add_string b (show_ints "F" (List.sort compare fr));
+         Buffer.add_string b (show_ints "#F" fr);
+         dump_htab b h'))
+    (String.split_on_char ';' ops);
+  (* HTAB_DESTROY = clear (the table has a free function) *)
+  let l = live !h in
+  Buffer.add_string b (show_ints "D" (List.sort compare l));
+  Buffer.add_string b (show_ints "#D" l);
+  print_endline (Buffer.contents b)
+
+(* ---------------------------------------------------------------- doubly linked lists *)
+let parse_dop s =
+  let nt x = nat_of_int (int_of_string x) in
+  match words s with
+  | ["pre"; e] -> Some (DPrepend (nt e))
+  | ["app"; e] -> Some (DAppend (nt e))
+  | ["insb"; a; e] -> Some (DInsertBefore (nt a, nt e))
+  | ["insa"; a; e] -> Some (DInsertAfter (nt a, nt e))
+  | ["rem"; e] -> Some (DRemove (nt e))
+  | ["el"; n] -> Some (DEl (z_of_int (int_of_string n)))
+  | ["len"] -> Some DLength
+  | ["head"] -> Some DHead
+  | ["tail"] -> Some DTail
+  | ["next"; e] -> Some (DNext (nt e))
+  | ["prev"; e] -> Some (DPrev (nt e))
+  | [] -> None
+  | _ -> failwith ("bad dlist op: " ^ s)
+
+let run_dlist args ops =
+  let n = min 64 (int_of_string (String.trim args)) in
+  let d = ref (dinit (nat_of_int n)) in
+  let l = ref [] in                    (* the abstract list: decides which ops are legal *)
+  let b = Buffer.create 256 in
+  let stop = ref false in
+  let lk e = List.nth !d.heap e in
+  let walk start step =
+    let rec go e cnt acc = match e with
+      | None -> List.rev acc
+      | Some x -> if cnt > 64 then List.rev acc else go (step (lk (int_of_nat x))) (cnt + 1) (int_of_nat x :: acc) in
+    go start 0 [] in
+  List.iter (fun o ->
+    if not !stop then
+    match parse_dop o with
+    | None -> ()
+    | Some o ->
+      (match sstep (nat_of_int n) !l o with
+       | None -> Buffer.add_string b " REJECT"; stop := true
+       | Some (l', _) ->
+         (match dstep !d o with
+          | None -> Buffer.add_string b " ERROR"; stop := true
+          | Some (d', out) ->
+            d := d'; l := l';
+            (match out with
+             | DoNone -> Buffer.add_string b " -"
+             | DoNode None -> Buffer.add_string b " e-"
+             | DoNode (Some x) -> Buffer.add_string b (" e" ^ string_of_int (int_of_nat x))
+             | DoNat k -> Buffer.add_string b (" n" ^ string_of_int (int_of_nat k)));
+            Buffer.add_string b (show_ints ">" (walk d'.head (fun k -> k.next)));
+            Buffer.add_string b (show_ints "<" (walk d'.tail (fun k -> k.prev))))))
+    (String.split_on_char ';' ops);
+  print_endline (Buffer.contents b)
+
 let () =
   try
     while true do
@@ -145,6 +270,8 @@ let () =
         (match words hd with
          | "varr" :: rest -> run_varr (String.concat " " rest) ops
          | "bitmap" :: rest -> run_bitmap (String.concat " " rest) ops
+         | "htab" :: rest -> run_htab (String.concat " " rest) ops
+         | "dlist" :: rest -> run_dlist (String.concat " " rest) ops
          | k :: _ -> print_endline ("?kind " ^ k)
          | [] -> ())
     done
